@@ -637,6 +637,7 @@ class Interp:
         v = self.eval(li['expr'], env, ctx, ty)
         if ty is not None:
             v = self.coerce_to_type(v, ty)
+            self._note_map_type(v, ty)
         if li['diverge']['_'] == 'Some':
             if not self.match_pat(pat, v, env, ctx):
                 self.eval(li['diverge']['0']['1'], env, ctx)
@@ -1573,6 +1574,7 @@ class Interp:
                 v = v.get()
             if ft is not None:
                 v = self.coerce_to_type(v, ft)
+                self._note_map_type(v, ft)
             fields[fname] = v
         if is_variant:
             return Enum(ety, name, [], fields)
@@ -1691,6 +1693,18 @@ class Interp:
         args = [self.eval(a, env, ctx) for a in argnodes]
         return self.B.call_builtin_path(self, segs[:-2] + [ty, name], args, hint, self.path_generics(f['path']))
 
+    def _note_map_type(self, v, t):
+        """remember the declared value type of a map (for entry().or_default())"""
+        v = deref(v)
+        if isinstance(v, HMap) and v.vty is None and t is not None:
+            h, args = type_head(t)
+            seen = 0
+            while h in self.prog.aliases and seen < 5:
+                h, args = type_head(self.prog.aliases[h])
+                seen += 1
+            if h in ('HashMap', 'BTreeMap') and len(args) == 2:
+                v.vty = args[1]
+
     def default_of_named(self, ty):
         fd = self.prog.methods.get((ty, 'default'))
         if fd is not None:
@@ -1729,9 +1743,9 @@ class Interp:
         if h in ('Vec', 'VecDeque'):
             return Vec([])
         if h == 'HashMap':
-            return HMap([])
+            return HMap([], False, args[1] if len(args) == 2 else None)
         if h == 'BTreeMap':
-            return HMap([], True)
+            return HMap([], True, args[1] if len(args) == 2 else None)
         if h == 'HashSet':
             return HSet([])
         if h == 'BTreeSet':
